@@ -16,7 +16,7 @@ Definition entry_ok (d : doc) (kv : bytes * avalue) : bool :=
   | AText v =>
       negb (doc_is_table_key d (fst kv)) &&
       (beq (fst kv) S_SYMBOLS ||
-       (ident (fst kv) && negb (contains KW_TYPEDEF_R (fst kv)) && hdr_ok v && negb (existsb (beq (fst kv)) (map fst (d_pairs d)))))
+       (ident (fst kv) && negb (contains KW_TYPEDEF_R (fst kv)) && hdr_ok v))
   | ARows rows =>
       existsb (key_of_table (fst kv)) (d_tables d) &&
       forallb (fun t => negb (key_of_table (fst kv) t) || rows_fit (d_enums d) t rows) (d_tables d)
@@ -110,7 +110,7 @@ Qed.
 Definition new_pairs (d : doc) (a : adata) : list (bytes * bytes) := spec_pairs d a.
 Definition grow (a : adata) (t : table) : table := mktable (t_name t) (t_cols t) (t_rows t ++ spec_rows a (upper (t_name t))).
 
-Lemma spec_append_eq d a : spec_append d a = mkdoc (d_comments d) (d_pairs d ++ new_pairs d a) (d_enums d) (map (grow a) (d_tables d)).
+Lemma spec_append_eq d a : spec_append d a = mkdoc (d_comments d) (upd_pairs (d_pairs d) (new_pairs d a)) (d_enums d) (map (grow a) (d_tables d)).
 Proof. reflexivity. Qed.
 
 Lemma spec_pairs_in d a k v : In (k, v) (spec_pairs d a) ->
@@ -149,6 +149,55 @@ Proof.
   - intros y Hy. specialize (Hd y Hy). cbn [existsb] in Hd. now apply orb_false_iff in Hd as [_ Hd].
 Qed.
 
+(* dictionary update keeps what doc_ok asks of the pairs *)
+Lemma assoc_set_forallb {A} (P : bytes * A -> bool) k v l : forallb P l = true -> P (k, v) = true -> forallb P (assoc_set k v l) = true.
+Proof.
+  intros Hl Hk. induction l as [|[k' v'] l IH]; cbn [assoc_set forallb]; [now rewrite Hk|].
+  cbn [forallb] in Hl. apply andb_true_iff in Hl as [H1 H2]. destruct (beq k k'); cbn [forallb]; [now rewrite Hk, H2|now rewrite H1, IH].
+Qed.
+
+Lemma assoc_set_keys_in {A} k (v : A) l x : In x (map fst (assoc_set k v l)) -> x = k \/ In x (map fst l).
+Proof.
+  induction l as [|[k' v'] l IH]; cbn [assoc_set map fst].
+  - intros [H|[]]; auto.
+  - destruct (beq k k') eqn:E; cbn [map fst In].
+    + apply beq_eq in E. subst k'. intros [H|H]; auto.
+    + intros [H|H]; auto. destruct (IH H); auto.
+Qed.
+
+Lemma assoc_set_distinct {A} k (v : A) l : distinct (map fst l) = true -> distinct (map fst (assoc_set k v l)) = true.
+Proof.
+  induction l as [|[k' v'] l IH]; [reflexivity|]. cbn [assoc_set map fst distinct]. intros H. apply andb_true_iff in H as [H1 H2].
+  destruct (beq k k') eqn:E.
+  - apply beq_eq in E. subst k'. cbn [map fst distinct]. now rewrite H1, H2.
+  - cbn [map fst distinct]. rewrite (IH H2), andb_true_r. apply negb_true_iff. apply negb_true_iff in H1.
+    destruct (existsb (beq k') (map fst (assoc_set k v l))) eqn:X; [|reflexivity].
+    apply existsb_exists in X as [y [Hy Ey]]. apply beq_eq in Ey. subst y. destruct (assoc_set_keys_in k v l k' Hy) as [->|Hin].
+    + rewrite beq_refl in E. discriminate.
+    + assert (existsb (beq k') (map fst l) = true) by (apply existsb_exists; exists k'; split; [exact Hin|apply beq_refl]). congruence.
+Qed.
+
+Lemma upd_pairs_ok (P : bytes * bytes -> bool) new : forall base,
+  forallb P base = true -> forallb P new = true -> distinct (map fst base) = true ->
+  forallb P (upd_pairs base new) = true /\ distinct (map fst (upd_pairs base new)) = true.
+Proof.
+  unfold upd_pairs. induction new as [|[k v] new IH]; intros base Hb Hn Hd; [split; assumption|].
+  cbn [forallb] in Hn. apply andb_true_iff in Hn as [Hk Hn]. cbn [fold_left fst snd]. apply IH; auto.
+  - now apply assoc_set_forallb.
+  - now apply assoc_set_distinct.
+Qed.
+
+(* the line loop over pair lines IS the dictionary update (no freshness needed) *)
+Lemma pairs_processed_upd sy rows : forall pairs done,
+  forallb (fun kv => ident (fst kv) && hdr_ok (snd kv) && negb (existsb (beq (upper (fst kv))) (map fst sy))) pairs = true ->
+  process_lines sy (mkst done rows) (map pair_line pairs) = Some (mkst (upd_pairs done pairs) rows).
+Proof.
+  induction pairs as [|[k v] pairs IH]; intros done H; [reflexivity|].
+  cbn [forallb fst snd] in H. apply andb_true_iff in H as [H Hps]. apply andb_true_iff in H as [H H3]. apply andb_true_iff in H as [H1 H2].
+  apply negb_true_iff in H3. cbn [map process_lines]. rewrite pair_line_roundtrip by auto. cbn [st_pairs st_rows].
+  rewrite IH by auto. reflexivity.
+Qed.
+
 Lemma spec_rows_fit d a t : forallb (entry_ok d) a = true -> In t (d_tables d) ->
   rows_fit (d_enums d) t (spec_rows a (upper (t_name t))) = true.
 Proof.
@@ -178,28 +227,29 @@ Proof.
   repeat match type of H with _ && _ = true => let H' := fresh "H" in apply andb_true_iff in H as [H H'] end. assumption.
 Qed.
 
+Lemma new_pairs_ok d a : forallb (entry_ok d) a = true ->
+  forallb (fun kv : bytes * bytes => ident (fst kv) && negb (contains KW_TYPEDEF_R (fst kv)) && hdr_ok (snd kv)
+                                  && negb (existsb (beq (upper (fst kv))) (doc_tnames d))) (new_pairs d a) = true.
+Proof.
+  intros Hent. apply forallb_forall. intros [k v] Hin. destruct (spec_pairs_in d a k v Hin) as [Hia [Hk Hs]].
+  pose proof (entries_ok_in d a _ Hent Hia) as E. unfold entry_ok in E. cbn [fst snd] in E. apply andb_true_iff in E as [_ E].
+  rewrite Hs in E. cbn [orb] in E. cbn [fst snd]. rewrite E. cbn [andb].
+  unfold doc_is_table_key in Hk. now rewrite Hk.
+Qed.
+
 Theorem doc_ok_append d a : doc_ok d = true -> aok d a = true -> doc_ok (spec_append d a) = true.
 Proof.
   intros Hd Ha. unfold aok in Ha. apply andb_true_iff in Ha as [Hdist Hent].
   destruct (doc_ok_parts d Hd) as [Hc [Hcn [Hp [Hdk [Hes [Hde [Ht Hdn]]]]]]].
   rewrite spec_append_eq. unfold doc_ok. cbn [d_comments d_pairs d_enums d_tables].
   rewrite tnames_grow. fold (tnames d) || idtac.
-  assert (NP : forallb (fun kv : bytes * bytes => ident (fst kv) && negb (contains KW_TYPEDEF_R (fst kv)) && hdr_ok (snd kv)
-                                  && negb (existsb (beq (upper (fst kv))) (doc_tnames d))) (new_pairs d a) = true).
-  { apply forallb_forall. intros [k v] Hin. destruct (spec_pairs_in d a k v Hin) as [Hia [Hk Hs]].
-    pose proof (entries_ok_in d a _ Hent Hia) as E. unfold entry_ok in E. cbn [fst snd] in E. apply andb_true_iff in E as [_ E].
-    rewrite Hs in E. cbn [orb] in E. apply andb_true_iff in E as [E _]. cbn [fst snd]. rewrite E. cbn [andb].
-    unfold doc_is_table_key in Hk. now rewrite Hk. }
-  assert (DK : distinct (map fst (d_pairs d ++ new_pairs d a)) = true).
-  { rewrite map_app. apply distinct_app_disjoint; auto; [now apply distinct_sublist_keys|].
-    intros k Hin. apply in_map_iff in Hin as [[k' v] [E Hin]]. cbn [fst] in E. subst k'.
-    destruct (spec_pairs_in d a k v Hin) as [Hia [Hk Hs]].
-    pose proof (entries_ok_in d a _ Hent Hia) as E. unfold entry_ok in E. cbn [fst snd] in E. apply andb_true_iff in E as [_ E].
-    rewrite Hs in E. cbn [orb] in E. apply andb_true_iff in E as [_ E]. now apply negb_true_iff. }
+  pose proof (new_pairs_ok d a Hent) as NP.
+  destruct (upd_pairs_ok (fun kv : bytes * bytes => ident (fst kv) && negb (contains KW_TYPEDEF_R (fst kv)) && hdr_ok (snd kv)
+                                  && negb (existsb (beq (upper (fst kv))) (doc_tnames d))) (new_pairs d a) (d_pairs d) Hp NP Hdk) as [PK DK].
   assert (TK : forallb (table_ok (d_enums d)) (map (grow a) (d_tables d)) = true).
   { rewrite forallb_map. apply forallb_forall. intros t Hin. rewrite forallb_forall in Ht. apply table_ok_grow; auto.
     now apply spec_rows_fit. }
-  unfold tnames, doc_tnames in *. rewrite forallb_app.
+  unfold tnames, doc_tnames in *.
   pose proof (doc_ok_ecol d Hd) as Hec.
   repeat (apply andb_true_iff; split); auto.
   destruct (d_comments d); [congruence|reflexivity].
@@ -242,12 +292,15 @@ Proof.
   now apply pair_good.
 Qed.
 
-Lemma new_items_good d a clock : doc_ok (spec_append d a) = true -> clock_ok clock = true -> Forall item_good (new_items d a clock).
+Lemma new_items_good d a clock : doc_ok (spec_append d a) = true -> forallb (entry_ok d) a = true -> clock_ok clock = true ->
+  Forall item_good (new_items d a clock).
 Proof.
-  intros Hd Hc. pose proof Hd as Hd'. rewrite spec_append_eq in Hd'.
+  intros Hd Hent Hc. pose proof Hd as Hd'. rewrite spec_append_eq in Hd'.
   destruct (doc_ok_parts _ Hd') as [_ [_ [_ [_ [Hes [_ [Ht _]]]]]]]. cbn [d_enums d_tables] in Hes, Ht.
   unfold new_items. constructor; [now apply clock_line_good|]. apply Forall_app. split.
-  - apply Forall_map_in. intros kv Hin. apply (pairs_good_of_doc _ Hd'). cbn [d_pairs]. apply in_or_app. now right.
+  - apply Forall_map_in. intros [k v] Hin. pose proof (new_pairs_ok d a Hent) as NP. rewrite forallb_forall in NP.
+    specialize (NP _ Hin). cbn [fst snd] in NP. apply andb_true_iff in NP as [NP _]. apply andb_true_iff in NP as [NP H3].
+    apply andb_true_iff in NP as [H1 H2]. now apply pair_good.
   - apply Forall_map_in. intros l Hin. unfold new_row_lines in Hin. apply in_flat_map in Hin as [t [Htin Hl]].
     apply in_map_iff in Hl as [r [<- Hr]].
     change (upper (t_name t)) with (upper (t_name (grow a t))).
@@ -304,12 +357,13 @@ Proof.
 Qed.
 
 Theorem appended_line_loop d a clock tws st' :
-  doc_ok d = true -> doc_ok (spec_append d a) = true -> map fst tws = d_tables d -> tws_ok (d_enums d) tws ->
+  doc_ok d = true -> doc_ok (spec_append d a) = true -> forallb (entry_ok d) a = true ->
+  map fst tws = d_tables d -> tws_ok (d_enums d) tws ->
   loop_result d st' ->
   exists st'', process_lines (sy_of (d_enums d) tws) st' (map item_line (new_items d a clock)) = Some st'' /\
                loop_result (spec_append d a) st''.
 Proof.
-  intros Hd Hd2 Et Hok [LP LRows]. pose proof Hd2 as Hd'. rewrite spec_append_eq in Hd'.
+  intros Hd Hd2 Hent Et Hok [LP LRows]. pose proof Hd2 as Hd'. rewrite spec_append_eq in Hd'.
   destruct (doc_ok_parts d Hd) as [_ [_ [_ [_ [Hes [_ [Ht Hdn]]]]]]].
   destruct (doc_ok_parts _ Hd') as [_ [_ [Hp' [Hdk' [_ [_ [Ht' _]]]]]]]. cbn [d_pairs d_enums d_tables] in Hp', Hdk', Ht'.
   set (es := d_enums d) in *. set (sy := sy_of es tws) in *.
@@ -324,15 +378,14 @@ Proof.
   change (map (fun x : bytes * bytes => pair_line x) (new_pairs d a)) with (map pair_line (new_pairs d a)).
   assert (C1 : forallb (fun kv : bytes * bytes => ident (fst kv) && hdr_ok (snd kv) && negb (existsb (beq (upper (fst kv))) (map fst sy)))
                        (new_pairs d a) = true).
-  { unfold tnames in Hp'. cbn [d_tables] in Hp'. rewrite tnames_grow in Hp'.
-    rewrite forallb_app in Hp'. apply andb_true_iff in Hp' as [_ Hp'].
-    apply forallb_forall. intros [k v] Hin. rewrite forallb_forall in Hp'. specialize (Hp' _ Hin). cbn [fst snd] in *.
-    apply andb_true_iff in Hp' as [H H4]. apply andb_true_iff in H as [H H3]. apply andb_true_iff in H as [H1 H2].
+  { pose proof (new_pairs_ok d a Hent) as NP. apply forallb_forall. intros [k v] Hin. rewrite forallb_forall in NP.
+    specialize (NP _ Hin). cbn [fst snd] in *.
+    apply andb_true_iff in NP as [H H4]. apply andb_true_iff in H as [H H3]. apply andb_true_iff in H as [H1 H2].
     rewrite H1, H3. cbn [andb]. rewrite Hkeys. exact H4. }
-  rewrite (pairs_processed sy rows (new_pairs d a) (d_pairs d) C1 Hdk').
+  rewrite (pairs_processed_upd sy rows (new_pairs d a) (d_pairs d) C1).
   set (trs := flat_map (fun t => map (fun r => (grow a t, r)) (spec_rows a (upper (t_name t)))) (d_tables d)).
   rewrite map_id. rewrite (new_row_lines_tr d a). fold trs.
-  destruct (rows_processed es sy Hes trs (mkst (d_pairs d ++ new_pairs d a) rows)) as [st'' [P1 [P2 P3]]].
+  destruct (rows_processed es sy Hes trs (mkst (upd_pairs (d_pairs d) (new_pairs d a)) rows)) as [st'' [P1 [P2 P3]]].
   { apply Forall_forall. intros [t r] Hin. unfold trs in Hin. apply in_flat_map in Hin as [t0 [Ht0 Hin]].
     apply in_map_iff in Hin as [r' [E Hr']]. inversion E; subst t r'. cbn [fst snd].
     split; [rewrite forallb_forall in Ht'; apply Ht'; now apply in_map|]. split; [cbn [grow t_rows]; apply in_or_app; now right|].
@@ -374,7 +427,7 @@ Qed.
 Lemma spec_append_nothing d a : new_pairs d a = [] -> (forall t, In t (d_tables d) -> spec_rows a (upper (t_name t)) = []) ->
   spec_append d a = d.
 Proof.
-  intros Hp Hr. rewrite spec_append_eq, Hp, app_nil_r. destruct d as [c p e ts]. cbn [d_comments d_pairs d_enums d_tables] in *. f_equal.
+  intros Hp Hr. rewrite spec_append_eq, Hp. unfold upd_pairs. cbn [fold_left]. destruct d as [c p e ts]. cbn [d_comments d_pairs d_enums d_tables] in *. f_equal.
   rewrite <- (map_id ts) at 2. apply map_ext_in. intros t Hin. unfold grow. rewrite (Hr t Hin), app_nil_r. now destruct t.
 Qed.
 
@@ -401,7 +454,7 @@ Proof.
     set (new := S_APPENDED ++ clock ++ [46; NL] ++ new_body d a).
     assert (Enew : new = items_text (new_items d a clock)) by (symmetry; apply new_items_text).
     destruct (grow_tws_facts (d_enums d) a tws Hok) as [Hok' [Esy [Est Efst]]].
-    destruct (appended_line_loop d a clock tws st' Hd Hd2 Et Hok LR) as [st'' [PL2 LR2]].
+    destruct (appended_line_loop d a clock tws st' Hd Hd2 Hent Et Hok LR) as [st'' [PL2 LR2]].
     assert (Et' : map fst (grow_tws a tws) = d_tables (spec_append d a)).
     { rewrite Efst, Et. reflexivity. }
     assert (Hg' : Forall item_good (its ++ new_items d a clock)).
